@@ -3,7 +3,7 @@ vs the Lean model (`applyRule`, `applyLatent`), on argument tuples from boundary
 rule's own predicates; compares result value / None / exception kind, result span, and that the
 arguments are unchanged after the call (value and span)."""
 import copy, itertools, random, sys
-from datetime import datetime
+from datetime import datetime, timedelta, timezone
 from qa import Driver, enc, REPO
 from codec import enc_art, enc_ts
 
@@ -15,7 +15,25 @@ def ts_pool():
             datetime(2021, 1, 31, 9, 0, 1), datetime(2019, 2, 28, 12, 0), datetime(2024, 2, 28, 23, 59, 30), datetime(2020, 12, 31, 23, 59),
             datetime(2023, 4, 30, 8, 15), datetime(1970, 1, 1, 0, 0), datetime(2100, 12, 31, 23, 59, 59), datetime(2000, 2, 29, 6, 30),
             datetime(2019, 1, 30, 10, 10), datetime(2022, 10, 31, 17, 0), datetime(2018, 3, 11, 15, 15, 15), datetime(2020, 3, 7, 0, 0, 1),
-            datetime(1996, 2, 29, 12, 0), datetime(2104, 2, 29, 8, 30, 30)]
+            datetime(1996, 2, 29, 12, 0), datetime(2104, 2, 29, 8, 30, 30),
+            # reference years below 100 (two-digit year arithmetic reaches year 0)
+            datetime(50, 6, 15, 12, 0), datetime(99, 12, 31, 23, 59),
+            # days around daylight-saving switches of the process zone (checks run under TZ=Europe/Berlin): results must not
+            # depend on the local zone of the process
+            datetime(2020, 3, 28, 10, 30), datetime(2020, 10, 24, 10, 30), datetime(2020, 3, 29, 1, 30), datetime(2020, 10, 25, 2, 30)] + aware_pool()
+
+
+def aware_pool():
+    """timezone-aware reference times: the model sees their wall-clock fields.  Consecutive entries denote the SAME instant in
+    different zones with different local dates (a cache keyed by the reference time conflates them)"""
+    tz = lambda h: timezone(timedelta(hours=h))
+    out = []
+    for base, offs in [(datetime(2020, 10, 5, 23, 30, tzinfo=timezone.utc), (0, 2, -11)), (datetime(2024, 2, 28, 22, 30, tzinfo=timezone.utc), (0, 2, 14)),
+                       (datetime(2023, 10, 30, 10, 45, tzinfo=timezone.utc), (-11, 14, 0)), (datetime(2019, 12, 31, 23, 59, 59, tzinfo=timezone.utc), (0, 1, -8)),
+                       (datetime(2024, 3, 15, 10, 30, tzinfo=timezone.utc), (0, 14, -11))]:
+        for h in offs:
+            out.append(base.astimezone(tz(h)))
+    return out
 
 
 def grid_ts():
@@ -42,12 +60,12 @@ def pools():
                                         "latelatenight", "veryearlyfirst"] if k in pod_hours]
     hours = [0, 1, 5, 9, 11, 12, 13, 17, 23]
     P["isTOD"] = [Time(hour=h, minute=m) for h in hours for m in (None, 0, 15, 30, 59)]
-    dates = [(2020, 2, 28), (2020, 2, 29), (2020, 3, 1), (2019, 12, 31), (2020, 1, 1), (2021, 6, 15), (2019, 2, 28), (2018, 3, 7),
+    dates = [(2020, 2, 28), (2020, 2, 29), (2020, 3, 1), (2019, 12, 31), (2020, 1, 1), (2020, 3, 28), (2020, 10, 25), (2021, 6, 15), (2019, 2, 28), (2018, 3, 7),
              (2020, 1, 31), (2020, 4, 30), (2020, 12, 31), (1999, 12, 31), (2000, 1, 1)]
     P["isDate"] = [Time(year=y, month=m, day=d) for y, m, d in dates]
-    P["isDateTime"] = [Time(year=y, month=m, day=d, hour=h, minute=mi) for (y, m, d) in dates[:7] for h in (0, 8, 12, 23) for mi in (None, 0, 30)]
+    P["isDateTime"] = [Time(year=y, month=m, day=d, hour=h, minute=mi) for (y, m, d) in dates[:7] for h in (0, 2, 8, 12, 22, 23) for mi in (None, 0, 30)]
     P["isDOY"] = [Time(month=m, day=d) for m, d in [(2, 28), (2, 29), (3, 1), (12, 31), (1, 1), (4, 30), (1, 31), (6, 15), (3, 7)]]
-    P["isYear"] = [Time(year=y) for y in (1990, 1999, 2000, 2019, 2020, 2024, 2029, 2100)]
+    P["isYear"] = [Time(year=y) for y in (1990, 1999, 2000, 2019, 2020, 2024, 2029, 2100, 0, 1, 99, 9999)]
     P["hasDate"] = P["isDate"][:8] + P["isDateTime"][:10] + [Time(year=2020, month=2, day=28, POD="evening"), Time(year=2020, month=12, day=31, hour=23, minute=30),
                                                              Time(year=2020, month=1, day=31, POD="morning"), Time(year=2020, month=1, day=31, hour=10)]
     P["hasDOW"] = P["isDOW"] + [Time(DOW=0, POD="morning"), Time(DOW=4, POD="evening"), Time(DOW=6, POD="lateevening")]
@@ -151,7 +169,7 @@ def render(a):
         elif a.month is not None and a.day is not None: parts.append("%d.%d." % (a.day, a.month))
         elif a.day is not None: parts.append("%d%s" % (a.day, {1: "st", 2: "nd", 3: "rd"}.get(a.day % 10 if a.day not in (11, 12, 13) else 0, "th")))
         elif a.month is not None: parts.append(_MON[(a.month - 1) % 12] + ("" if a.year is None else " %d" % a.year))
-        elif a.year is not None: parts.append(str(a.year))
+        elif a.year is not None: parts.append(str(a.year) if a.year >= 100 else "%02d" % a.year)
         if a.hour is not None: parts.append("%d:%02d" % (a.hour, a.minute) if a.minute is not None else "%d o'clock" % a.hour)
         if a.POD is not None:
             if a.POD not in _POD: return None
@@ -172,7 +190,10 @@ def hint_for(ts, args):
     rs = [render(a) for a in args]
     if any(r is None for r in rs):
         return None
-    return {"texts": [" ".join(rs), "x " + " ".join(rs) + " y"], "ts": [ts.year, ts.month, ts.day, ts.hour, ts.minute, ts.second]}
+    h = {"texts": [" ".join(rs), "x " + " ".join(rs) + " y"], "ts": [ts.year, ts.month, ts.day, ts.hour, ts.minute, ts.second]}
+    if ts.tzinfo is not None:
+        h["utcoffset_min"] = int(ts.utcoffset().total_seconds() // 60)
+    return h
 
 
 def snapshot(a):
@@ -195,7 +216,7 @@ def run(rng, per_rule=1200):
             total *= max(1, len(pl))
         uses_ts = True
         tuples = []
-        if total * len(tss) <= 4 * per_rule:
+        if total * len(tss) <= 10 * per_rule:
             for combo in itertools.product(*poolz):
                 for ts in tss:
                     tuples.append((ts, combo))
